@@ -439,7 +439,15 @@ pub fn check_shell(case: &Case, obs: &mut Obs) -> CheckResult {
     let mut k = 0u32;
     let mut syms: Vec<Sym> = vec![Sym::Tick];
     syms.extend(case.syms.iter().copied());
+    // in a third of the cases one link's socket stops accepting sends right before the pass that broadcasts the
+    // adopted id (a send error on that link): the round must still reach every other link. The link is a function
+    // of the case, and the history ends with that pass (the wire monitor cannot see what a dead socket swallows).
+    let break_link: Option<usize> = if case.syms.len() % 3 == 0 { Some((case.syms.len() / 3) % n) } else { None };
+    let mut broke: Option<usize> = None;
     for (step, s) in syms.iter().enumerate() {
+        if broke.is_some() {
+            break;
+        }
         let conn_before: Vec<bool> = sh.st.conns.iter().map(|c| c.connected).collect();
         let mut delivered_reg3: Option<usize> = None;
         match *s {
@@ -448,6 +456,13 @@ pub fn check_shell(case: &Case, obs: &mut Obs) -> CheckResult {
                 let now = sh.now();
                 let timed_out: Vec<bool> = sh.st.conns.iter().map(|c| c.is_timed_out(now)).collect();
                 let cleared = mon.on_tick(now);
+                if let Some(b) = break_link
+                    && mon.broadcast_expected()
+                    && sh.break_socket(b)
+                {
+                    broke = Some(b);
+                    obs.class(if b + 1 < n { "broadcast-round-with-a-failing-send-ahead-of-other-links" } else { "broadcast-round-with-a-failing-send-on-the-last-link" });
+                }
                 sh.housekeeping_core();
                 let wire = sh.drain_wire();
                 // (as before: the connectivity after the pass, which is what the driver counted in it)
@@ -475,7 +490,10 @@ pub fn check_shell(case: &Case, obs: &mut Obs) -> CheckResult {
                     let cnt = count(l);
                     let reconnect_max = timed_out[l as usize] as usize;
                     if broadcast {
-                        vensure!(cnt >= 1, "broadcast-incomplete", "step {step}: REG2 broadcast did not reach link {l}");
+                        if broke == Some(l as usize) {
+                            continue; // its socket refuses sends: nothing of it can be on the wire
+                        }
+                        vensure!(cnt >= 1, "broadcast-incomplete", "step {step}: REG2 broadcast did not reach link {l}{}", if broke.is_some() { format!(" (the send on link {} failed in this round)", broke.unwrap()) } else { String::new() });
                         vensure!(cnt <= 1 + reconnect_max, "second-broadcast", "step {step}: link {l} got {cnt} REG2 frames in one pass");
                     } else {
                         vensure!(cnt <= reconnect_max, "second-broadcast", "step {step}: link {l} got {cnt} REG2 frame(s) in a pass with no newly accepted REG2 (timed out before the pass: {})", timed_out[l as usize]);
